@@ -255,6 +255,18 @@ func init() {
 	// ---- inpub: well-formed inbound PUBLISH delivered with exactly its fields ----
 	register(&funcEngine{name: "inpub",
 		gen: func(rng *rand.Rand, tier string, n int, emit func(string)) {
+			// bodies around 16 KiB, 64 KiB and beyond (any reader that grows or reuses a buffer crosses its size classes here)
+			for _, l := range []int{16383, 16384, 16385, 20000, 65536, 70001} {
+				pl := make([]byte, l)
+				for i := range pl {
+					pl[i] = byte(i*7 + l)
+				}
+				p := specPublish("big/t", pl, 1, true, false, 77)
+				hl := headerLen(p)
+				emit(fmt.Sprintf("@parse %d %d %s", 0x30, p[0]&0x0f, descBytes(p[hl:])))
+				emit(fmt.Sprintf("@rp %s", descBytes(p)))
+				emit(fmt.Sprintf("@serve 1 %s", descBytes(p)))
+			}
 			// topics at the top of the 16-bit length range, and a packet that only announces such a topic
 			for _, l := range []int{65533, 65534, 65535} {
 				for _, qos := range []byte{0, 1} {
